@@ -496,28 +496,24 @@ def run(ck):
         progs.append(G(r).program())
     reqs = ["run %d %s" % (len(p), " ".join(t for s in p for t in toks_s(s))) for p in progs]
     model = ck.driver_parallel("drv-c01", reqs)
-    src = []
+    cases = []
     for i, p in enumerate(progs):
-        src.append("//// m%d budget=3000000" % i)
-        src.append("'use strict';\n" + S_HELPER + "void 0;\n" + js_block(p))
+        cases.append(("m%d" % i, "budget=3000000", "'use strict';\n" + S_HELPER + "void 0;\n" + js_block(p)))
     # ---- (ii) route / source independence on richer programs
     rich = [jsgen.gen_program(r, 3, strict=False) for _ in range(60 if quick else 1500)]
     for i, p in enumerate(rich):
         for name, f in ROUTES:
-            src.append("//// r%d.%s budget=3000000" % (i, name))
-            src.append(f(p))
-    rc, out, err = ck.run_bin(bins["trace"], input="\n".join(src) + "\n")
-    res = {}
-    for l in out.split("\n"):
-        if l.startswith("{"):
-            j = json.loads(l)
-            res[j["id"]] = j
-    if rc != 0 or len(res) != len(progs) + len(rich) * len(ROUTES):
-        ck.fail_input({"site": "engine-crash", "input": "c01 batch", "expected": "%d traces" % (len(progs) + len(rich) * len(ROUTES)), "actual": "rc=%s got %d: %s" % (rc, len(res), err[-300:])})
+            cases.append(("r%d.%s" % (i, name), "budget=3000000", f(p)))
+    res = ck.run_cases(bins["trace"], cases)
+    if len(res) != len(cases):
+        ck.fail_input({"site": "engine-crash", "input": "c01 batch", "expected": "%d traces" % len(cases), "actual": "got %d" % len(res)})
     stats = {"ok": 0, "err": 0, "fuel": 0, "lines": 0}
     for i, (p, a) in enumerate(zip(progs, model)):
         j = res.get("m%d" % i)
         if not j:
+            continue
+        if j["completion"].startswith("abort"):
+            ck.fail_input({"site": "engine-abort", "input": js_block(p), "expected": a, "actual": j["completion"], "oracle": "Lean reference interpreter (C01.Model)"})
             continue
         t = a.split(" ")
         kind = t[0]
@@ -546,6 +542,12 @@ def run(ck):
         base = res.get("r%d.bytes" % i)
         if not base or "NoInstructionsRemain" in base["completion"]:
             continue
+        routes_res = [res.get("r%d.%s" % (i, name)) for name, _ in ROUTES]
+        aborted = [x for x in routes_res if x and x["completion"].startswith("abort")]
+        if aborted:
+            if len(aborted) < len([x for x in routes_res if x]):
+                ck.fail_input({"site": "abort-depends-on-entry-route", "input": p, "expected": "the same outcome by every route", "actual": [x and x["completion"][:60] for x in routes_res]})
+            continue          # exhausts the memory limit by every route: a resource blow-up of the generated program
         for name, _ in ROUTES[1:]:
             o = res.get("r%d.%s" % (i, name))
             if not o or "NoInstructionsRemain" in o["completion"]:
